@@ -3,6 +3,7 @@
 package slip
 
 import (
+	"encoding/json"
 	"fmt"
 	"math"
 	"math/big"
@@ -93,6 +94,18 @@ func SimpleObject(val any) (obj Object) {
 		obj = Fixnum(tv)
 	case uint64:
 		obj = uintObject(tv)
+
+	case json.Number:
+		// The ojg parsers use json.Number for integers of 19 or more digits.
+		if i, err := tv.Int64(); err == nil {
+			obj = Fixnum(i)
+		} else if bi, ok := new(big.Int).SetString(string(tv), 10); ok {
+			obj = (*Bignum)(bi)
+		} else if f, err := tv.Float64(); err == nil {
+			obj = DoubleFloat(f)
+		} else {
+			obj = String(tv)
+		}
 
 	case float32:
 		obj = SingleFloat(tv)
